@@ -29,9 +29,20 @@ def convert_dep5(obj: ClickObj) -> None:
     project = obj.project
     if not (project.root / ".reuse/dep5").exists():
         raise click.UsageError(_("No '.reuse/dep5' file."))
+    # The project could be loaded, so no REUSE.toml took part in it. Something
+    # of that name can be there all the same: a symbolic link (links are not
+    # followed when looking for REUSE.toml files), a file ignored by the VCS or
+    # a directory. Never write over or through it.
+    toml_path = project.root / "REUSE.toml"
+    if toml_path.is_symlink() or toml_path.exists():
+        raise click.UsageError(
+            _("'{path}' already exists; not overwriting it.").format(
+                path=toml_path
+            )
+        )
 
     text = toml_from_dep5(
         cast(ReuseDep5, project.global_licensing).dep5_copyright
     )
-    (project.root / "REUSE.toml").write_text(text)
+    toml_path.write_text(text)
     (project.root / ".reuse/dep5").unlink()
